@@ -252,10 +252,20 @@ def print_axioms(thms, modules):
     if todo:
         d = os.path.join(WORK, "audit%d" % os.getpid())
         os.makedirs(d, exist_ok=True)
-        for t in todo:
-            # one file per theorem: an unknown name must not hide the others
+        fn = os.path.join(d, "Audit.lean")
+        # all theorems in one run of lean ...
+        open(fn, "w").write("".join("import %s\n" % m for m in modules) + "".join("#print axioms %s\n" % t for t in todo))
+        rc, out = run(["lake", "env", "lean", fn], cwd=LEAN, timeout=1200)
+        if rc == 0:
+            for t in todo:
+                m = re.search(r"'%s' depends on axioms: \[([^\]]*)\]" % re.escape(t), out)
+                if m:
+                    cache["axioms"][t] = [a.strip() for a in m.group(1).replace("\n", " ").split(",") if a.strip()]
+                elif re.search(r"'%s' does not depend on any axioms" % re.escape(t), out):
+                    cache["axioms"][t] = []
+        for t in [t for t in todo if t not in cache["axioms"]]:
+            # ... and one file per theorem for what is left: an unknown name must not hide the others
             src = "".join("import %s\n" % m for m in modules) + "#print axioms %s\n" % t
-            fn = os.path.join(d, "Audit.lean")
             open(fn, "w").write(src)
             rc, out = run(["lake", "env", "lean", fn], cwd=LEAN, timeout=1200)
             m = re.search(r"depends on axioms: \[([^\]]*)\]", out)
